@@ -99,6 +99,14 @@ CHECKS["C05"] = (
     "DESIGN.md section 2 / C05",
 )
 
+CHECKS["C10"] = (
+    "proptest-generated C programs with a generated hidden set (blocklist by type/item/function/var/file, opaque by option/annotation); inventory predicates + rustc validity with harness-supplied blob definitions + C-vs-Rust layout differential of every visible type; metamorphic baseline (same program, nothing hidden) for compile errors",
+    "exploration",
+    "For each generated program 1..4 declarations are hidden in one of five ways (plus a leading run of declarations hidden as a file). The bindings must not define any blocklisted name (types, enumerators, functions, variables, layout assertions); opaque types must consist of blob fields only and expose no inherent methods; a struct that contains a blocklisted type by value (not through an opaque type) must derive nothing. The module is then compiled together with user definitions of the blocklisted types (structs of clang's size and alignment, modules for moduleconsts enums, aliases for typedef+tag pairs) and a probe compares size, alignment, member offsets/widths/signedness of every visible type, and size/alignment of opaque ones, with a clang-compiled C probe. A compile error that the same program shows with nothing hidden is C01's subject and is not reported here.",
+    "C only; the quantifier's bases/template arguments are C++ (not generated here). Known findings excluded by construction and counted: PartialOrd/Ord with opaque types, opaque types inside packed types, --impl-debug and --no-derive-copy with packed types.",
+    "DESIGN.md section 2 / C10",
+)
+
 CHECKS["C06"] = (
     "proptest-generated C type graphs and C++ template graphs x targets x assertion forms; completeness predicate over the syn inventory + differential of every asserted number against a `clang --target=T` constant table",
     "exploration",
